@@ -6,4 +6,5 @@ let () =
   | [| _; "bufmut" |] -> Run_bufmut.run ()
   | [| _; "heap" |] -> Run_heap.run ()
   | [| _; "recycle" |] -> Run_recycle.run ()
+  | [| _; "adv" |] -> Run_adv.run ()
   | _ -> prerr_endline "usage: modelrun <engine>"; exit 2
